@@ -107,20 +107,28 @@ pub fn record(args: &[String], seed: u64, tr: &mut Tr) -> Value {
     let maxlen: usize = arg_num(args, "--maxlen", 8);
     let per: usize = arg_num(args, "--queries", 6);
     let mut r = crate::gens::rng(seed);
-    let al = Alphabet { pp: false, ..Alphabet::unitary() };
+    // --alphabet ct --minlen L --minq Q: deep T-rich circuits (the doubled diagrams of marginals / expectation values then contain
+    // cat states whose legs are adjacent, 6-T BSS groups with mixed phases, ...)
+    let minlen: usize = arg_num(args, "--minlen", 1);
+    let minq: usize = arg_num(args, "--minq", 1);
+    let al = if arg_val(args, "--alphabet").as_deref() == Some("ct") {
+        Alphabet { oneq: vec!["T", "T", "Tdg", "HAD", "HAD", "S"], twoq: vec!["CNOT", "CZ"], special: vec![], threeq: vec![], phs: vec![], pp: false }
+    } else {
+        Alphabet { pp: false, ..Alphabet::unitary() }
+    };
     let tf = format!("{dir}/hook.ndjson");
     let (mut nq, mut nbad) = (0usize, 0usize);
     let variants = crate::util::arg_flag(args, "--variants");
     let mut nvar = 0usize;
     // fixed circuits that make marginals non-trivial, then random ones
-    let mut circuits: Vec<(usize, Vec<AG>)> = vec![
+    let mut circuits: Vec<(usize, Vec<AG>)> = if minlen > 1 { vec![] } else { vec![
         (2, vec![AG { t: "HAD", qs: vec![0], ph: 0 }, AG { t: "CNOT", qs: vec![0, 1], ph: 0 }]),
         (2, vec![AG { t: "HAD", qs: vec![0], ph: 0 }, AG { t: "T", qs: vec![0], ph: 0 }, AG { t: "HAD", qs: vec![0], ph: 0 }, AG { t: "SWAP", qs: vec![0, 1], ph: 0 }]),
         (3, vec![AG { t: "HAD", qs: vec![0], ph: 0 }, AG { t: "CNOT", qs: vec![0, 1], ph: 0 }, AG { t: "CNOT", qs: vec![1, 2], ph: 0 }, AG { t: "T", qs: vec![2], ph: 0 }, AG { t: "HAD", qs: vec![2], ph: 0 }]),
-    ];
+    ] };
     while circuits.len() < ncirc {
-        let n = r.random_range(1..=maxq);
-        let len = r.random_range(1..=maxlen);
+        let n = r.random_range(minq.min(maxq)..=maxq);
+        let len = r.random_range(minlen.min(maxlen)..=maxlen);
         let mut al2 = al.clone();
         if n < 3 {
             al2.threeq = vec![];
